@@ -94,11 +94,19 @@ pub struct DirectCase {
     /// to +-3 pitches around z0
     #[serde(default)]
     pub on_axis: u8,
+    /// the same helix written with the opposite radius and phi0 + pi (D7)
+    #[serde(default)]
+    pub negative_radius: bool,
 }
 
 fn direct(c: &DirectCase, ev: &mut Ev) -> Outcome {
     ev.eval();
     let mut h = un6(&c.helix);
+    if c.negative_radius {
+        h[3] = -h[3];
+        h[4] += PI;
+        ev.label("negative-radius");
+    }
     match c.on_axis {
         1 => {
             h[0] = 0.0;
@@ -140,8 +148,8 @@ fn direct(c: &DirectCase, ev: &mut Ev) -> Outcome {
 
 fn direct_case() -> impl Strategy<Value = DirectCase> {
     let off = || prop_oneof![10 => -0.01f64..=0.01, 1 => Just(0.0f64)];
-    (helix_params(), prop_oneof![10 => -3.0f64..=3.0, 1 => Just(0.0f64), 1 => Just(PI), 1 => Just(-PI)], (off(), off(), off()), prop::bool::weighted(0.8), (0.1092f64..=0.182, 0.0..(2.0 * PI), -1.152f64..=1.152), prop_oneof![18 => Just(0u8), 1 => Just(1u8), 1 => Just(2u8)])
-        .prop_map(|(helix, s, off, near, free, on_axis)| DirectCase { helix: fx6(helix), s: Fx(s), off: [Fx(off.0), Fx(off.1), Fx(off.2)], near, free: [Fx(free.0), Fx(free.1), Fx(free.2)], on_axis })
+    (helix_params(), prop_oneof![10 => -3.0f64..=3.0, 1 => Just(0.0f64), 1 => Just(PI), 1 => Just(-PI)], (off(), off(), off()), prop::bool::weighted(0.8), (0.1092f64..=0.182, 0.0..(2.0 * PI), -1.152f64..=1.152), prop_oneof![18 => Just(0u8), 1 => Just(1u8), 1 => Just(2u8)], prop::bool::weighted(0.15))
+        .prop_map(|(helix, s, off, near, free, on_axis, negative_radius)| DirectCase { helix: fx6(helix), s: Fx(s), off: [Fx(off.0), Fx(off.1), Fx(off.2)], near, free: [Fx(free.0), Fx(free.1), Fx(free.2)], on_axis, negative_radius })
 }
 
 /// Cases drawn in the coordinates of the underlying Kepler problem
